@@ -1064,7 +1064,8 @@ contract(
     requires=_cmp_req, ensures=_cmp_post,
     raises={'AssertionError': _cmp_hvk_differs},
     calls={'_compare_buildable': 'config._compare_buildable#rec'},
-    loops={0: Loop(_cmp_inv, mod=lambda c: [], fields=[])},
+    loops={0: Loop(_cmp_inv, mod=lambda c: [], fields=[],
+                   facts=lambda c: [('dkeys', c.view.has, None)])},
     props=('C06', 'C17'),
     note='value-level comparison (check_dag=False: the recursive use, and the first phase of ==): '
          'True iff same Buildable class, equal callables, and for every key set on either side both '
